@@ -64,7 +64,7 @@ def handle (line : String) : String :=
   match words line with
   -- ---------------------------------------------------------------- diagnostics (checks/c19.py)
   | ["counts"] =>
-    s!"obl={layoutObligations.length} const={allConstPairs.length} limit={limitChecks.length} map={Gen.cMaps.length} scalario={goScalarIO.length} mapcall={Gen.goMapCalls.length}"
+    s!"obl={layoutObligations.length} const={allConstPairs.length} limit={limitChecks.length} map={Gen.cMaps.length} mapio={Gen.goMapIO.length} cclass={Gen.cConsts.length} fieldlit={Gen.goFieldLiterals.length} param={paramContents.length} endian={machineBigEndian.length} wiretype={exchangedTypes.length}"
   | ["obl", i] =>
     match i.toNat? >>= fun k => layoutObligations[k]? with
     | some (p, a) =>
@@ -79,25 +79,55 @@ def handle (line : String) : String :=
     | none => "none"
   | ["limit", i] =>
     match i.toNat? >>= fun k => limitChecks[k]? with
-    | some x => (if x.2 then "ok " else "BAD ") ++ x.1
+    | some x =>
+      (match x.2 with
+       | some true => "ok "
+       | some false => "BAD "
+       | none => "BAD (a name this limit refers to no longer exists in the regenerated tables) ") ++ x.1
     | none => "none"
   | ["map", i] =>
     match i.toNat? >>= fun k => Gen.cMaps[k]? with
     | some m => (if mapOk m then "ok " else "BAD shared map with unpaired key/value record: ") ++ nameStr m.name ++ s!" key={m.keyType} value={m.valType}"
     | none => "none"
-  | ["scalario", i] =>
-    match i.toNat? >>= fun k => goScalarIO[k]? with
-    | some x =>
-      let m := findMap x.1 Gen.cMaps
-      (if scalarIOOk x then "ok " else "BAD ") ++ s!"{nameStr x.1} go key/value bytes={x.2.1}/{x.2.2} c={(m.map (·.keySize)).getD 0}/{(m.map (·.valSize)).getD 0}"
-    | none => "none"
-  | ["mapcall", i] =>
-    match i.toNat? >>= fun k => Gen.goMapCalls[k]? with
+  | ["mapio", i] =>
+    match i.toNat? >>= fun k => Gen.goMapIO[k]? with
     | some c =>
-      let m := findMap c.1 Gen.cMaps
-      (if mapCallOk c then "ok " else "BAD Go passes a key/value of the wrong size: ")
-        ++ s!"{nameStr c.1}.{nameStr c.2.1} arg{c.2.2.1} {c.2.2.2.2.1} ({c.2.2.2.1} bytes) at {c.2.2.2.2.2}; C key/value={(m.map (·.keySize)).getD 0}/{(m.map (·.valSize)).getD 0}"
+      if !mapIOOk c then "BAD Go hands a map a key/value that is not the type paired with the C record (or has the wrong size): " ++ mapIOProblem c
+      else if !constKeyOk c then s!"BAD constant map key {c.const} used on {nameStr c.map} ({c.what}, result kind `{nameStr c.kind}`, at {c.at_}) is not the C constant it stands for"
+      else "ok " ++ nameStr c.map ++ " " ++ c.what
     | none => "none"
+  | ["cclass", i] =>
+    match i.toNat? >>= fun k => Gen.cConsts[k]? with
+    | some c =>
+      if cConstClassified c.1 then "ok " ++ nameStr c.1
+      else s!"BAD C constant {nameStr c.1}={c.2} is neither paired with a Go constant nor listed kernel-only (cKernelOnlyConsts): decide whether the control plane mirrors it"
+    | none => "none"
+  | ["fieldlit", i] =>
+    match i.toNat? >>= fun k => Gen.goFieldLiterals[k]? with
+    | some l =>
+      if fieldLiteralOk l then s!"ok {nameStr l.1}.{nameStr l.2.1}=={l.2.2.1}"
+      else s!"BAD Go compares {nameStr l.1}.{nameStr l.2.1} with the literal {l.2.2.1} at {l.2.2.2}: not the value of the C constant it mirrors (or an unlisted comparison; see fieldLiteralMeaning)"
+    | none => "none"
+  | ["param", i] =>
+    match i.toNat? >>= fun k => paramContents[k]? with
+    | some x =>
+      if paramContentOk x then "ok " ++ nameStr x.1
+      else s!"BAD PARAM literal: the field at the position of dae_param.{nameStr x.1} ({(paramGoField x.1).map nameStr}) is not initialised from {x.2.1.map nameStr} (initialiser mentions {((paramGoField x.1).bind (lookupIdents · Gen.goParamInit)).map (·.map nameStr)})"
+    | none => "none"
+  | ["endian", i] =>
+    match i.toNat? >>= fun k => machineBigEndian[k]? with
+    | some x =>
+      if nativeEndianOk x then "ok " ++ nameStr x.1
+      else s!"BAD GOARCH {nameStr x.1}: pkg/ebpf_internal selects NativeEndian={(lookupNameOpt x.1 Gen.goNativeEndian).map nameStr}, the machine is {if x.2 then "big" else "little"}-endian"
+    | none => "none"
+  | ["wiretype", i] =>
+    match i.toNat? >>= fun k => exchangedTypes[k]? with
+    | some t =>
+      if packedOkFor t || nameMem t stubPaddedStandIns then "ok " ++ nameStr t
+      else s!"BAD Go type {nameStr t} is handed to cilium/ebpf but its encoding/binary layout does not agree with the C record (implicit padding): " ++
+        " ; ".intercalate ((pairing.filter (fun p => nameEq p.go t)).flatMap (fun p => pairProblems Gen.cRecs Gen.goPacked p))
+    | none => "none"
+  | ["statscheck"] => if statsKeysCovered then "ok both overflow counters are read" else "BAD the control plane no longer reads both bpf_stats_map counters through recognisable constant keys"
   | ["classify"] =>
     let bad := (goRecsFor n!"amd64").filter fun r => !(pairing.any (fun p => nameEq p.go r.name) || nameMem r.name goOnlyTypes)
     if bad.isEmpty then "ok" else "BAD unclassified Go data types: " ++ ",".intercalate (bad.map (nameStr ·.name))
@@ -116,18 +146,20 @@ def handle (line : String) : String :=
     if keyModelsFollowLayout then "ok key models follow the layouts"
     else "BAD the byte-level key models (tuples_key / lpm_key / match_set value) no longer follow the regenerated layouts: a member moved on both sides; update DaeVerif/C19/Model.lean §4"
   | ["listencheck"] =>
-    let bad := [(6, false), (6, true), (17, false), (17, true)].filter fun x => cListenKey x.1 x.2 != goListenKey (listenerOfPacket x.1 x.2)
+    let bad := [(6, false), (6, true), (17, false), (17, true)].filter fun x =>
+      (cListenKey? x.1 x.2).isNone || cListenKey? x.1 x.2 != goListenKey? (listenerOfPacket x.1 x.2)
     if bad.isEmpty then "ok listener keys"
     else "BAD listener socket keys: " ++ " ; ".intercalate (bad.map fun x =>
-      s!"l4proto={x.1} ipv6={x.2}: kernel looks up key {cListenKey x.1 x.2}, control plane stores that listener under key {goListenKey (listenerOfPacket x.1 x.2)}")
+      s!"l4proto={x.1} ipv6={x.2}: kernel looks up key {optStr (cListenKey? x.1 x.2)}, control plane stores the listener duplicated from listener.{nameStr (listenerOfPacket x.1 x.2).field} under key {optStr (goListenKey? (listenerOfPacket x.1 x.2))} (none = no such call site / constant)")
   | ["conncheck"] =>
     let cases := [0, 1, 2, 7, 128, 255].flatMap fun o => [(o, 6, true), (o, 6, false), (o, 17, true), (o, 17, false)]
-    let bad := cases.filter fun x => cConnKey x.1 x.2.1 80 x.2.2 != some (goConnKey x.1 (ntOfPacket x.2.1 x.2.2))
-    let oob := cases.filter fun x => goConnKey x.1 (ntOfPacket x.2.1 x.2.2) ≥ mapMaxEntries n!"outbound_connectivity_map"
+    let bad := cases.filter fun x => cConnKey x.1 x.2.1 80 x.2.2 != goConnKey? x.1 (ntOfPacket x.2.1 x.2.2)
+    let mx := (mapMax? n!"outbound_connectivity_map").getD 0
+    let oob := cases.filter fun x => ((goConnKey? x.1 (ntOfPacket x.2.1 x.2.2)).getD mx) ≥ mx
     if bad.isEmpty && oob.isEmpty then "ok connectivity slots"
     else "BAD connectivity slots: " ++ " ; ".intercalate ((bad.take 4).map fun x =>
-      s!"outbound={x.1} l4proto={x.2.1} ipv4={x.2.2} dport=80: kernel reads slot {optStr (cConnKey x.1 x.2.1 80 x.2.2)}, control plane writes slot {goConnKey x.1 (ntOfPacket x.2.1 x.2.2)}")
-      ++ (if oob.isEmpty then "" else s!" ; slot beyond max_entries={mapMaxEntries n!"outbound_connectivity_map"} for outbound {(oob.map (·.1)).take 3}")
+      s!"outbound={x.1} l4proto={x.2.1} ipv4={x.2.2} dport=80: kernel reads slot {optStr (cConnKey x.1 x.2.1 80 x.2.2)}, control plane writes slot {optStr (goConnKey? x.1 (ntOfPacket x.2.1 x.2.2))}")
+      ++ (if oob.isEmpty then "" else s!" ; slot beyond max_entries={mx} for outbound {(oob.map (·.1)).take 3}")
   | ["archreport"] =>
     let bad := pairing.flatMap fun p => (archesAll.filter fun a => !pairOk Gen.cRecs (goRecsFor a) p).map fun a => s!"{nameStr p.go}@{nameStr a}"
     "mismatch-anywhere=" ++ ",".intercalate bad
@@ -174,13 +206,13 @@ def handle (line : String) : String :=
     let ip' := match ip with | "4" => IpStr.v4 | "6" => .v6 | _ => .other
     let dom' := match dom with | "dns" => UdpDomain.dns | "data" => .data | _ => .unset
     match outbound.toNat? with
-    | some o => toString (goConnKey o ⟨l4', ip', dom'⟩)
+    | some o => optStr (goConnKey? o ⟨l4', ip', dom'⟩)
     | none => "bad-op"
   | ["listen", which] =>
     match which with
-    | "tcp4" => toString (goListenKey .tcp4)
-    | "tcp6" => toString (goListenKey .tcp6)
-    | "udp" => toString (goListenKey .udp)
+    | "tcp4" => optStr (goListenKey? .tcp4)
+    | "tcp6" => optStr (goListenKey? .tcp6)
+    | "udp" => optStr (goListenKey? .udp)
     | _ => "bad-op"
   | ["lpm", e, pfx] =>
     match parseEndian? e, parsePrefix? pfx with
@@ -217,12 +249,30 @@ def handle (line : String) : String :=
     | some o, some l, some d => optStr (cConnKey o l d (v4 == "1"))
     | _, _, _ => "bad-op"
   | ["clisten", l4proto, v6] =>
-    match l4proto.toNat? with | some l => toString (cListenKey l (v6 == "1")) | none => "bad-op"
+    match l4proto.toNat? with | some l => optStr (cListenKey? l (v6 == "1")) | none => "bad-op"
   | ["croute", e, saddr, daddr, mac] =>
     match parseEndian? e, hexToBytes? saddr, hexToBytes? daddr, hexToBytes? mac with
     | some e, some s, some d, some m =>
       s!"dom={bytesToHex (cDomainKey d)} lpm_d={bytesToHex (cLpmProbe e d)} lpm_s={bytesToHex (cLpmProbe e s)} lpm_m={bytesToHex (cLpmProbe e m)}"
     | _, _, _, _ => "bad-op"
+  | ["byteval", v] =>
+    match v.toNat? with | some v => bytesToHex (goByteValue v) | none => "bad-op"
+  | ["ring", old, start, count] =>
+    match old.toNat?, start.toNat?, count.toNat?, goC? n!"consts.MaxMatchSetLen" with
+    | some o, some s, some c, some m => match goRingIndexValue m o s c with | some v => bytesToHex v | none => "error"
+    | _, _, _, _ => "bad-op"
+  | ["macaddr", e, hex] =>
+    match parseEndian? e, hexToBytes? hex with
+    | some e, some m => if m.length = 6 then bytesToHex (goLpmKey e ⟨⟨false, goMacAddr16 m⟩, 128⟩) else "bad-op"
+    | _, _ => "bad-op"
+  | ["cmacpack", e, hex] =>
+    match parseEndian? e, hexToBytes? hex with
+    | some e, some [a, b, c, d, f, g] => bytesToHex (cMacPack e a b c d f g)
+    | _, _ => "bad-op"
+  | ["creadmask", e, hex] =>
+    match parseEndian? e, hexToBytes? hex with
+    | some e, some v => toString (cReadEnumMask e v)
+    | _, _ => "bad-op"
   | ["creadidx", e, hex] =>
     match parseEndian? e, hexToBytes? hex with
     | some e, some v => toString (cReadIndex e v)
